@@ -227,6 +227,16 @@ def edit_group(n, group, r):
             pass
     defs = [d for l in n.libraries for d in l.definitions]
     if group == 'data':
+        def deep_mutate(e):
+            for k2 in list(e.data.keys()):
+                v = e.data.get(k2)
+                if isinstance(v, list): tryit(lambda v=v: v.append('mutated'))
+                elif isinstance(v, dict): tryit(lambda v=v: v.__setitem__('mutated', True))
+        for l in n.libraries:
+            deep_mutate(l)
+            for d in l.definitions:
+                deep_mutate(d)
+                for e in list(d.ports) + list(d.cables) + list(d.children): deep_mutate(e)
         tryit(lambda: setattr(n, 'name', 'renamed_netlist'))
         tryit(lambda: n.__setitem__('user.edit', [1, 2, 3]))
         for l in n.libraries:
@@ -526,9 +536,35 @@ def element_case(ad, f, r, kind):
 ELEMENT_KINDS = ('Library', 'Definition', 'Instance', 'Port', 'Cable', 'Wire', 'InnerPin', 'OuterPin')
 
 
+def enrich(ad, seed):
+    """C07 quantifies over 'arbitrary user data' and any library layout: give every kind of element nested mutable data with
+    some probability, and (one design in four) merge all libraries into one so that the single-library code paths are reached"""
+    import copy
+    ad = copy.deepcopy(ad)
+    r = random.Random(seed * 7919 + 13)
+    nested = lambda: r.choice([{'user.list': [1, [2, 3], {'z': None}]}, {'VERILOG.InlineConstraints': {'keep': 'true', 'loc': ['A', 'B']}},
+                               {'EDIF.properties': [{'identifier': 'P', 'value': 'v'}]}])
+    for L in ad['libraries']:
+        if r.random() < 0.3: L.setdefault('data', {}).update(nested())
+        for d in L['definitions']:
+            if r.random() < 0.3: d.setdefault('data', {}).update(nested())
+            for kind in ('ports', 'cables', 'instances'):
+                for e in d[kind]:
+                    if r.random() < 0.3: e.setdefault('data', {}).update(nested())
+    if r.random() < 0.25 and len(ad['libraries']) > 1 and not (ad.get('meta') or {}).get('micro'):
+        names = [d['name'] for L in ad['libraries'] for d in L['definitions']]
+        if len(names) == len(set(names)):            # definitions keep their names: merge only when they do not collide
+            one = {'name': ad['top'][0], 'definitions': [d for L in ad['libraries'] for d in L['definitions']]}
+            for d in one['definitions']:
+                for i in d['instances']: i['ref'] = [one['name'], i['ref'][1]]
+            ad['libraries'] = [one]; ad['top'] = [one['name'], ad['top'][1]]
+    return ad
+
+
 def case(ad, f):
     seed = int(designs.ad_hash(ad), 16) % (2 ** 31)
     r = random.Random(seed)
+    ad = enrich(ad, seed)
     netlist_clone_case(ad, f, r)
     micro = 'micro' in (ad.get('meta') or {})
     for group in GROUPS:
